@@ -289,32 +289,33 @@ Definition verb_table_statement : Prop := forall (a b c d : info) (x : list info
   (len_ok (a :: b :: x ++ [c; d]) -> rearrange_verb 14 (a :: b :: x ++ [c; d]) = d :: c :: x ++ [a; b]) /\
   (len_ok (a :: b :: x ++ [c; d]) -> rearrange_verb 15 (a :: b :: x ++ [c; d]) = d :: c :: x ++ [b; a]).
 
-(* verbs whose D part is empty: the range is A ++ x, written A ++ x ++ [] for the general lemma *)
-Ltac verb_noD v A x m H :=
+Ltac verb v A x D m H :=
   let E := fresh "E" in
-  assert (E : length (A ++ x ++ []) <= MAX_CONTEXT_LENGTH) by (rewrite app_nil_r; exact H);
-  pose proof (verb_general v A x [] m eq_refl eq_refl eq_refl E) as E';
-  rewrite app_nil_r in E'; exact E'.
-Ltac verb_D v A x D m H := exact (verb_general v A x D m eq_refl eq_refl eq_refl H).
+  let E' := fresh "E'" in
+  assert (E : length (A ++ x ++ D) <= MAX_CONTEXT_LENGTH) by (cbn [app]; rewrite ?app_nil_r; exact H);
+  pose proof (verb_general v A x D m eq_refl eq_refl eq_refl E) as E';
+  let tr := eval vm_compute in (map_rev_r m) in change (map_rev_r m) with tr in E';
+  let tl := eval vm_compute in (map_rev_l m) in change (map_rev_l m) with tl in E';
+  cbv [swapif] in E'; cbn [app rev] in E'; rewrite ?app_nil_r in E'; exact E'.
 
 Lemma verb_table : verb_table_statement.
 Proof.
   intros a b c d x. unfold len_ok, rearrange_verb.
   repeat split; intro H.
-  - verb_noD 0 (@nil info) x 0x00%N H.
-  - verb_noD 1 [a] x 0x10%N H.
-  - verb_D 2 (@nil info) x [d] 0x01%N H.
-  - verb_D 3 [a] x [d] 0x11%N H.
-  - verb_noD 4 [a; b] x 0x20%N H.
-  - verb_noD 5 [a; b] x 0x30%N H.
-  - verb_D 6 (@nil info) x [c; d] 0x02%N H.
-  - verb_D 7 (@nil info) x [c; d] 0x03%N H.
-  - verb_D 8 [a] x [c; d] 0x12%N H.
-  - verb_D 9 [a] x [c; d] 0x13%N H.
-  - verb_D 10 [a; b] x [d] 0x21%N H.
-  - verb_D 11 [a; b] x [d] 0x31%N H.
-  - verb_D 12 [a; b] x [c; d] 0x22%N H.
-  - verb_D 13 [a; b] x [c; d] 0x32%N H.
-  - verb_D 14 [a; b] x [c; d] 0x23%N H.
-  - verb_D 15 [a; b] x [c; d] 0x33%N H.
+  - verb 0 (@nil info) x (@nil info) 0x00%N H.
+  - verb 1 [a] x (@nil info) 0x10%N H.
+  - verb 2 (@nil info) x [d] 0x01%N H.
+  - verb 3 [a] x [d] 0x11%N H.
+  - verb 4 [a; b] x (@nil info) 0x20%N H.
+  - verb 5 [a; b] x (@nil info) 0x30%N H.
+  - verb 6 (@nil info) x [c; d] 0x02%N H.
+  - verb 7 (@nil info) x [c; d] 0x03%N H.
+  - verb 8 [a] x [c; d] 0x12%N H.
+  - verb 9 [a] x [c; d] 0x13%N H.
+  - verb 10 [a; b] x [d] 0x21%N H.
+  - verb 11 [a; b] x [d] 0x31%N H.
+  - verb 12 [a; b] x [c; d] 0x22%N H.
+  - verb 13 [a; b] x [c; d] 0x32%N H.
+  - verb 14 [a; b] x [c; d] 0x23%N H.
+  - verb 15 [a; b] x [c; d] 0x33%N H.
 Qed.
